@@ -91,6 +91,14 @@ static void* atomic_thr(void* arg)
 #define MAXOUT (1 << 16)
 static unsigned char (*outs)[32]; static size_t nouts; static pthread_mutex_t outm = PTHREAD_MUTEX_INITIALIZER;
 static err_t extra_src(size_t* read, void* buf, size_t count, void* st) { memset(buf, 0x3C, count); *read = count; (void)st; return ERR_OK; }
+/* sources that do not deliver: read_i allows an error return (with or without a partial read); rngCreate ignores such a source, and the call still
+   counts as one reference ("Поддерживается счетчик обращений к rngCreate()") */
+static err_t fail_src(size_t* read, void* buf, size_t count, void* st) { *read = 0; (void)buf, (void)count, (void)st; return ERR_FILE_READ; }
+static err_t short_src(size_t* read, void* buf, size_t count, void* st) { memset(buf, 0x77, count < 7 ? count : 7); *read = count < 7 ? count : 7; (void)st; return ERR_MAX; }
+static read_i pick_src(uint64_t* s)
+{
+	switch ((unsigned)(xs(s) % 6)) { case 0: case 1: return extra_src; case 2: return fail_src; case 3: return short_src; default: return 0; }
+}
 static void keep_blocks(const unsigned char* b, size_t n)
 {
 	size_t i;
@@ -105,7 +113,7 @@ static void* rng_thr(void* arg)
 	for (r = 0; r < ROUNDS; ++r)
 	{
 		unsigned nops = 3 + (unsigned)(xs(&s) % 10);
-		err_t e = rngCreate((xs(&s) & 1) ? extra_src : 0, 0);
+		err_t e = rngCreate(pick_src(&s), 0);
 		INV(e == ERR_OK, "rngCreate failed with %u", (unsigned)e);
 		if (e != ERR_OK) continue;
 		depth = 1;
@@ -137,7 +145,7 @@ static void* rng_thr(void* arg)
 				break;
 			case 3: rngRekey(); break;
 			case 4: INV(rngIsValid(), "rngIsValid() is FALSE while a reference is held"); break;
-			case 5: if (depth < 3) { e = rngCreate(0, 0); INV(e == ERR_OK, "nested rngCreate failed"); if (e == ERR_OK) depth++; } break;
+			case 5: if (depth < 3) { e = rngCreate(pick_src(&s), 0); INV(e == ERR_OK, "nested rngCreate failed"); if (e == ERR_OK) depth++; } break;
 			case 6: if (depth > 1) { rngClose(); depth--; } break;
 			default: sched_yield();
 			}
@@ -154,7 +162,7 @@ static void* churn_thr(void* arg)
 	pthread_barrier_wait(&bar);
 	for (r = 0; r < ROUNDS * 4; ++r)
 	{
-		err_t e = rngCreate(0, 0);
+		err_t e = rngCreate(pick_src(&s), 0);
 		INV(e == ERR_OK, "rngCreate failed with %u", (unsigned)e);
 		if (e != ERR_OK) continue;
 		INV(rngIsValid(), "rngIsValid() is FALSE while a reference is held");
